@@ -55,6 +55,11 @@ type CostModel struct {
 	BaseNs   int     `json:"base_ns"`   // cost of one stop check
 	JitterNs int     `json:"jitter_ns"` // uniform extra cost per yield
 	Stalls   []Stall `json:"stalls,omitempty"`
+	// SetupStallPct: percent of time-controlled searches whose set-up (after
+	// the search clock has started, before the first iteration) costs up to
+	// SetupStallMaxUs of fake time (slow initialisation: table ageing, GC pause)
+	SetupStallPct   int `json:"setup_stall_pct,omitempty"`
+	SetupStallMaxUs int `json:"setup_stall_max_us,omitempty"`
 }
 
 // Stall is a descheduling of the search thread (fault F3).
@@ -94,12 +99,13 @@ type Sim struct {
 	Abort     bool
 	Killed    int
 
-	Cost      CostModel
-	costRng   *PRNG
-	nodeCalls int64
-	Yields    int64
-	stallIdx  int
-	StallsHit int
+	Cost        CostModel
+	costRng     *PRNG
+	nodeCalls   int64
+	Yields      int64
+	stallIdx    int
+	StallsHit   int
+	SetupStalls int
 
 	tokenSeq  uint64
 	firstSlot []int64
@@ -110,14 +116,16 @@ type Sim struct {
 
 	// lifecycle observation (written on engine goroutines, read by actors
 	// at their own instants)
-	SearchGen     int
-	SearchActive  bool
-	TimersLive    int
-	BusyWaiting   bool
-	LastEndT      int64
-	YieldsAtStart int64
-	TimerFires    int
-	Rejected      int
+	SearchGen    int
+	SearchActive bool
+	TimersLive   int
+	BusyWaiting  bool
+	LastEndT     int64
+	// InResultWindow: the search has sent its result but still holds the running lock
+	InResultWindow bool
+	YieldsAtStart  int64
+	TimerFires     int
+	Rejected       int
 	// StaleFires counts TimerFire events whose timer was spawned by an
 	// earlier search generation than the one running when it fired.
 	StaleFires []Ev
@@ -348,6 +356,8 @@ func hookYield(kind int, key uint64) {
 			s.sleepUntil(s.firstSlot[key])
 		}
 	case verifhook.ResultSent:
+		s.InResultWindow = true
+		defer func() { s.InResultWindow = false }()
 		// the window between the result being visible to the controller and
 		// the search goroutine releasing the running lock
 		s.record(kind, 0)
@@ -397,6 +407,13 @@ func hookToken(kind int) uint64 {
 		s.tokenGen[tok] = int32(s.SearchGen)
 		s.TimersLive++
 		s.record(kind, tok)
+		if s.Cost.SetupStallPct > 0 && s.costRng.Intn(100) < s.Cost.SetupStallPct {
+			// fault F3 at search set-up: the spawning goroutine is slow here
+			d := int64(1000 + s.costRng.Intn(s.Cost.SetupStallMaxUs*1000+1))
+			s.SetupStalls++
+			t := s.reserve(d)
+			s.sleepUntil(t)
+		}
 	case verifhook.BookSpawn:
 		s.BookWorkers++
 		s.firstSlot[tok] = s.reserve(s.bookFirstDelay(tok))
